@@ -335,6 +335,23 @@ def _p_supplier(q, s, counts, rounds, sgo_q=None):
 
 
 def _p_consumer(q, c, rounds, out, renew_q, n, go_q=None, sgo_q=None, m=0):
+    fz = None
+    if rounds > 1:
+        # this consumer dawdles inside the section that moves an end marker's lid (the section the queue protects with its lock)
+        import mpservice.queue as MQ
+
+        fz = schedfuzz.SchedFuzz(seed=c + 1, p=0.0)
+        fz.add_site(MQ.IterableQueue.__next__, 'z = self._applied_lids.get()', prob=0.8, delay=0.03, where='after', name='holding-lids-lock')
+        fz.add_site(MQ.IterableQueue.__next__, 'self._used_lids.put(z)', prob=0.8, delay=0.03, where='after', name='after-lid-moved')
+        fz.start()
+    try:
+        return _p_consumer_rounds(q, c, rounds, out, renew_q, n, go_q, sgo_q, m)
+    finally:
+        if fz is not None:
+            fz.stop()
+
+
+def _p_consumer_rounds(q, c, rounds, out, renew_q, n, go_q=None, sgo_q=None, m=0):
     for r in range(rounds):
         got = [x for x in q]
         out.put((r, c, got))
